@@ -1,6 +1,6 @@
 //! C06 (runtime boxes): CBox<T> / CSliceBox<T> driven by op scripts over a pool of boxes; a plain table of the values each box
 //! owns is the monitor's oracle (what std's Box<T> / Box<[T]> would destroy, and when).
-//! params: [element type 0 = heap-owning / 1 = zero-sized / 2 = 8-byte plain / 3 = 3-byte]
+//! params: [element type 0 = heap-owning / 1 = zero-sized / 2 = 8-byte / 3 = 3-byte (all with observable destructors) / 4 = plain u64-like / 5 = plain 24-byte struct (NO drop glue)]
 //! ops: '0 v' CBox::from(value)   '1 v' CBox::from(Box::new(value))   '2 v' CBox::from((value, NoContext))   '3 v..' CSliceBox::from(Box<[T]>)
 //!      '4 h' read through Deref  '5 h i x' write through DerefMut (slice: element i; out of range panics)   '6 h' into_opaque
 //!      '7 h' drop                '8 h' IntoInner::into_inner (the value moves to the caller, no destructor runs)
@@ -68,16 +68,17 @@ fn go<T: Elem + Send + 'static>(ops: &Rows, mon: &mut Mon) -> Rows {
                     H::B(b) => { let v = unsafe { b.into_inner() }; let val = v.val(); let before = take_drops();
                                  if !before.is_empty() { mon.fail(format!("op{} into_inner ran destructors {:?}", k, before)); }
                                  drop(v); let after = take_drops();
-                                 if after != vec![val] { mon.fail(format!("op{} the value handed back by into_inner is not a live value (destructor log {:?})", k, after)); }
+                                 if T::HAS_DROP && after != vec![val] { mon.fail(format!("op{} the value handed back by into_inner is not a live value (destructor log {:?})", k, after)); }
                                  if oracle[h as usize].take() != Some(vec![val]) { mon.fail(format!("op{} into_inner returned {}", k, val)); }
                                  row = vec![8, 1, val]; }
                     other => { if valid { pool[h as usize] = other; } } } }
             _ => {}
         }
         if let Some((nh, vals)) = newh { pool.push(nh); oracle.push(Some(vals)); row = vec![c, 1, pool.len() as i64 - 1]; }
-        let ran = take_drops();
+        let mut ran = take_drops();
         // monitor: the destructors that ran are exactly those of the values the box owned (each once, in order)
-        if ran != want { mon.fail(format!("op{} destructors ran for {:?}, expected {:?}", k, ran, want)); }
+        if T::HAS_DROP { if ran != want { mon.fail(format!("op{} destructors ran for {:?}, expected {:?}", k, ran, want)); } }
+        else { ran = want.clone(); }     // plain data: nothing to observe here — whether its box was released is the allocator's verdict (leak_blocks)
         out.push(row);
         out.push(ran);
         k += 1;
@@ -92,6 +93,8 @@ pub fn run(params: &[i64], ops: &Rows, mon: &mut Mon) -> Rows {
         1 => go::<EZ>(ops, mon),
         2 => go::<E64>(ops, mon),
         3 => go::<E3>(ops, mon),
+        4 => go::<P64>(ops, mon),
+        5 => go::<P24>(ops, mon),
         _ => vec![vec![-2]],
     }
 }
